@@ -194,6 +194,55 @@ func TestC12(t *testing.T) {
 		cfg.StartTimeout = 10 * time.Second
 		hostSetFor(cfg, wire)
 		done := func() { e.Ret("h", "mtls", o) }
+		if p.Path == "relaunch-impostor" {
+			// One ClientConfig object used for two launches (a supervisor restarting
+			// its plugin): launch 1 is well-behaved (announces and serves certificate
+			// A); launch 2 announces a fresh certificate B but serves with A's key.
+			idDir := caseDir(c.ID, "id")
+			try := func(l *launched) (ops []string, anyOK bool) {
+				rec := func(op string, err error) {
+					st := "ok"
+					if err != nil {
+						st = "err " + trunc(err.Error(), 100)
+					} else if op != "Start" && op != "Client" && op != "Dispense" {
+						anyOK = true
+					}
+					ops = append(ops, op+": "+st)
+				}
+				okk, _, _ := within(40*time.Second, func() {
+					_, err := l.Client.Start()
+					rec("Start", err)
+					if err != nil {
+						return
+					}
+					cp, err := l.Client.Client()
+					rec("Client", err)
+					if err != nil {
+						return
+					}
+					rec("Ping", cp.Ping())
+					raw, err := cp.Dispense("kv")
+					rec("Dispense", err)
+					if err == nil {
+						_, err = raw.(vp.Cli).Do("tag")
+						rec("Call", err)
+					}
+				})
+				if !okk {
+					ops = append(ops, "HUNG")
+				}
+				within(20*time.Second, l.Client.Kill)
+				l.hardKill()
+				return
+			}
+			l1 := prepare(c.ID, "a", map[string]any{"mode": "impostor", "impostorOf": wire, "impAnnounceServed": true, "impSaveTo": idDir, "ctl": ""}, cfg, "cmd")
+			ops1, ok1 := try(l1)
+			o.PositiveOK, o.Positive = ok1, fmt.Sprint("launch 1 (announces and serves A): ", ops1)
+			l2 := prepare(c.ID, "b", map[string]any{"mode": "impostor", "impostorOf": wire, "impServeFrom": idDir, "ctl": ""}, cfg, "cmd")
+			o.HostOps, o.AnyOK = try(l2)
+			done()
+			return
+		}
 		if p.Impostor != "" {
 			pcfg := map[string]any{"mode": "impostor", "impostorOf": wire, "plaintext": p.Impostor == "plaintext", "ctl": ""}
 			l := prepare(c.ID, "", pcfg, cfg, "cmd")
